@@ -138,6 +138,7 @@ class Kernel:
         self.short_write = cfg.get('short_write', False)
         self.trace_digest = hashlib.sha256()
         self.seam_hook = None       # callable(kind, detail): may raise an injected fault
+        self.task_counter = 0       # pool task ids are unique across all pools of a run
         self.armed = None
 
     # ---- logging (never draws a choice, never reads a real clock) -------------------
@@ -730,7 +731,8 @@ class SimPool:
         except Exception as e:  # noqa: BLE001 - real pool fails the future with the pickling error
             fut.set_exception(e)
             return fut
-        t = _Task(len(self.tasks), None, None, None, fut)
+        t = _Task(k.task_counter, None, None, None, fut)
+        k.task_counter += 1
         t.payload = blob
         self.tasks.append(t)
         self.queue.append(t)
